@@ -38,6 +38,38 @@ class EnvAnalysis:
     step_funcs: Dict[str, FuncInfo] = field(default_factory=dict)
 
 
+def split_selection(vfg: VFG, ts: T) -> T:
+    """A TimeStep built field by field with the SAME predicate selecting each field,
+    TimeStep(step_type=where(p, LAST, MID), discount=where(p, 0, 1), reward=r, ...), is the selection
+    where(p, TimeStep(LAST, 0, r, ...), TimeStep(MID, 1, r, ...)) -- the form the termination / transition
+    constructors under lax.cond give.  Fields not selected on p are shared by both alternatives."""
+    if ts.kind in ("choice", "phi"):
+        alts = ts.args[2] if ts.kind == "choice" else ts.args[0]
+        new = tuple(split_selection(vfg, a) for a in alts)
+        if all(x is y for x, y in zip(new, alts)):
+            return ts
+        return mk("choice", ts.args[0], ts.args[1], new) if ts.kind == "choice" else vfg.mk_phi(list(new))
+    if ts.kind != "construct" or not ts.args[0].endswith("types.TimeStep"):
+        return ts
+    fields = dict(ts.args[1])
+    st = fields.get("step_type")
+    while st is not None and st.kind == "copy":
+        st = st.args[0]
+    if st is None or st.kind != "choice" or len(st.args[2]) != 2 or st.args[0] not in ("where", "select", "ifexp", "cond"):
+        return ts
+    how, pred = st.args[0], st.args[1]
+
+    def pick(v: T, i: int) -> T:
+        w = v
+        while w.kind == "copy":
+            w = w.args[0]
+        if w.kind == "choice" and w.args[1] is pred and len(w.args[2]) == 2:
+            return w.args[2][i]
+        return v
+    alts = tuple(mk("construct", ts.args[0], tuple((n, pick(v, i)) for n, v in ts.args[1])) for i in (0, 1))
+    return mk("choice", how, pred, alts)
+
+
 _TREE: Optional[Tree] = None
 
 
@@ -72,7 +104,7 @@ def analyse_env(tree: Tree, ci: ClassInfo) -> EnvAnalysis:
     s = vfg.apply_func(step, self_t, step.cls, [state, action], {}, None, None)
     step_funcs = dict(vfg.visited_funcs)
     ea = EnvAnalysis(ci, s_cls, o_cls, self_t, key, state, action, r, s,
-                     vfg.mk_proj(r, 0, 2), vfg.mk_proj(r, 1, 2), vfg.mk_proj(s, 0, 2), vfg.mk_proj(s, 1, 2),
+                     vfg.mk_proj(r, 0, 2), vfg.mk_proj(r, 1, 2), vfg.mk_proj(s, 0, 2), split_selection(vfg, vfg.mk_proj(s, 1, 2)),
                      vfg, reset_funcs, step_funcs)
     _ENV_CACHE[ci.qual] = ea
     return ea
